@@ -6,6 +6,7 @@ import (
 	"crypto/ed25519"
 	"encoding/json"
 	"fmt"
+	"net/url"
 	"os"
 	"os/exec"
 	"path/filepath"
@@ -17,6 +18,7 @@ import (
 	"github.com/lidofinance/dc4bc/client/types"
 	"github.com/lidofinance/dc4bc/storage"
 
+	"verifharness/oracle"
 	"verifharness/sched"
 	"verifharness/world"
 )
@@ -355,6 +357,86 @@ func checkC18(c *Ctx) {
 			c.Sample(rep.Sample)
 		}
 	})
+	c18ResetOnLevelDB(c)
+}
+
+// c18ResetOnLevelDB (part C on the real store): POST /resetState with database paths that cannot be
+// opened, against a node on LevelDB after a completed key generation. A refused request must leave the
+// node as it was: the same offset, operations, rounds and signatures are served afterwards and the next
+// board message is applied.
+func c18ResetOnLevelDB(c *Ctx) {
+	ce, err := NewCeremonyWith(world.Options{N: 2, T: 2, Seed: c.Seed*173 + 1, UseLevelDB: true, ViaHTTP: true}, world.EagerPolicy)
+	if err != nil || !ce.AllIn(StIdle) {
+		c.Inconclusive("world for the reset part: %v", err)
+		return
+	}
+	defer ce.Close()
+	w, nd := ce.W, ce.W.Nodes[1]
+	if _, err := ce.RunBatch(BatchSpec{Proposer: 0, Data: map[string][]byte{"f": []byte("x")}}, world.EagerPolicy); err != nil {
+		c.Inconclusive("batch before the reset part: %v", err)
+		return
+	}
+	view := func() (string, error) {
+		var parts []string
+		off, err := nd.API.Offset()
+		if err != nil {
+			return "", fmt.Errorf("/getOffset: %w", err)
+		}
+		parts = append(parts, fmt.Sprint("offset=", off))
+		ops, err := nd.API.Operations()
+		if err != nil {
+			return "", fmt.Errorf("/getOperations: %w", err)
+		}
+		parts = append(parts, fmt.Sprint("ops=", len(ops)))
+		lst, err := nd.API.FSMList()
+		if err != nil {
+			return "", fmt.Errorf("/getFSMList: %w", err)
+		}
+		parts = append(parts, "rounds="+canonDump(string(lst)))
+		sg, err := nd.API.Raw("GET", "/getSignatures", url.Values{"dkgID": {ce.Round}}, nil)
+		if err != nil {
+			return "", fmt.Errorf("/getSignatures: %w", err)
+		}
+		parts = append(parts, "sigs="+oracle.Hash(canonDump(string(sg))))
+		return strings.Join(parts, " "), nil
+	}
+	blocker := filepath.Join(w.Dir, "a-regular-file")
+	_ = os.WriteFile(blocker, []byte("x"), 0o600)
+	dsns := []string{"/dev/null/x", filepath.Join(blocker, "below-a-file"), "/proc/version/db", "bad\x00path", filepath.Join(w.Dir, strings.Repeat("a", 300)), "/proc/1/does-not-exist/x"}
+	for _, dsn := range dsns {
+		before, err := view()
+		if err != nil {
+			c.Inconclusive("reset part: node unreadable before the request: %v", err)
+			return
+		}
+		_, rerr := nd.API.Raw("POST", "/resetState", nil, mkReq(map[string]interface{}{"new_state_dbdsn": dsn}))
+		c.Eval(1)
+		c.Distinct(fmt.Sprintf("api|/resetState|leveldb|%q", trunc(dsn, 24)))
+		c.Add("cases:reset-on-leveldb", 1)
+		wit := map[string]interface{}{"endpoint": "/resetState", "new_state_dbdsn": trunc(dsn, 80), "answer": fmt.Sprint(rerr)}
+		if rerr == nil {
+			c.Note("reset to %q was accepted (not judged)", trunc(dsn, 40))
+			return // the node now runs on another store; nothing further to compare
+		}
+		after, err := view()
+		if err != nil {
+			c.Violate("C18/refused-request-left-the-node-unusable:/resetState", fmt.Sprintf("after the refused reset to %q the node answers: %v", trunc(dsn, 40), err), wit)
+			return
+		}
+		if after != before {
+			c.Violate("C18/rejected-request-changed-state:/resetState", fmt.Sprintf("before: %s; after: %s", before, after), wit)
+		}
+	}
+	// the node still applies the next board message
+	if err := w.ProposeSign(0, ce.Round, map[string][]byte{"after": []byte("reset attempts")}, nil); err != nil {
+		c.Inconclusive("proposal after the reset attempts: %v", err)
+		return
+	}
+	if _, err := nd.PollStep(0); err != nil {
+		c.Violate("C18/refused-request-left-the-node-unusable:/resetState", fmt.Sprintf("poll after the refused resets: %v", err), nil)
+	} else if st := NodeState(nd, ce.Round); st != StAwaitPartials {
+		c.Violate("C18/refused-request-left-the-node-unusable:/resetState", fmt.Sprintf("the next proposal was not applied (state %s)", st), nil)
+	}
 }
 
 func tail(s string, n int) string {
